@@ -23,11 +23,14 @@ type GEdge struct {
 }
 
 type GFlow struct {
-	Name  string  `json:"name"`
-	URL   string  `json:"url"`
-	Nodes []GNode `json:"nodes"`
-	Req   []GEdge `json:"req"`
-	Resp  []GEdge `json:"resp"`
+	Name string `json:"name"`
+	URL  string `json:"url"`
+	// FilterExtra: further lines of the filter section, already indented by two spaces (method, headers,
+	// query_params, status_code ...)
+	FilterExtra string  `json:"filter_extra,omitempty"`
+	Nodes       []GNode `json:"nodes"`
+	Req         []GEdge `json:"req"`
+	Resp        []GEdge `json:"resp"`
 }
 
 func (f GFlow) Node(key string) (GNode, bool) {
@@ -80,7 +83,7 @@ func renderEdges(sb *strings.Builder, edges []GEdge) {
 // YAML renders the flow file.
 func (f GFlow) YAML() string {
 	var sb strings.Builder
-	fmt.Fprintf(&sb, "name: %s\nfilter:\n  url: \"%s\"\nprocessors:\n", f.Name, f.URL)
+	fmt.Fprintf(&sb, "name: %s\nfilter:\n  url: \"%s\"\n%sprocessors:\n", f.Name, f.URL, f.FilterExtra)
 	for _, n := range f.Nodes {
 		fmt.Fprintf(&sb, "  %s:\n    processor: %s\n", n.Key, n.Kind)
 		switch n.Kind {
